@@ -45,6 +45,23 @@ pub fn items<'tcx>(tcx: TyCtxt<'tcx>) -> J {
             o.push(("parent", J::s(defpath(tcx, p.to_def_id()))));
             o.push(("parent_kind", J::s(format!("{:?}", tcx.def_kind(p)))));
         }
+        if kind == DefKind::Closure {
+            let cty = tcx.type_of(did).instantiate_identity().skip_norm_wip();
+            if let ty::Closure(_, cargs) = cty.kind() {
+                let mut ups = Vec::new();
+                let mut src = BTreeSet::new();
+                let mut interior = Interior::new(tcx);
+                let ca = cargs.as_closure();
+                if ca.tupled_upvars_ty().is_ty_var() == false {
+                    for t in ca.upvar_tys().iter() {
+                        ups.push(J::s(ty_str(t)));
+                        interior.sources(t, &mut HashSet::new(), &mut src);
+                    }
+                }
+                o.push(("upvars", J::Arr(ups)));
+                o.push(("upvar_interior", J::Arr(src.into_iter().map(J::Str).collect())));
+            }
+        }
         if matches!(kind, DefKind::Fn | DefKind::AssocFn) {
             o.push(("vis", J::s(format!("{:?}", tcx.visibility(did)))));
             let sig = tcx.fn_sig(did).instantiate_identity().skip_norm_wip().skip_binder();
